@@ -139,6 +139,7 @@ type concCase struct {
 	Backend  string   `json:"backend"`
 	History  string   `json:"history"` // empty deployed upgraded failed-on-top
 	Kinds    []string `json:"kinds"`
+	Force    []bool   `json:"force"` // per operation: the force flag (no influence on the protocol)
 	Schedule []int    `json:"schedule"`
 }
 
@@ -156,6 +157,7 @@ func corrConc(seed uint64, n int, tier string, out string, replay string) {
 		}
 		for i := 0; i < np; i++ {
 			c.Kinds = append(c.Kinds, Pick(r, []string{"install", "upgrade", "upgrade"}))
+			c.Force = append(c.Force, r.Chance(30))
 		}
 		// a random interleaving of 6 steps each
 		left := make([]int, np)
@@ -188,7 +190,7 @@ func corrConc(seed uint64, n int, tier string, out string, replay string) {
 		for _, h := range []string{"empty", "deployed", "upgraded", "failed-on-top"} {
 			for _, ks := range [][]string{{"install", "install"}, {"install", "upgrade"}, {"upgrade", "install"}, {"upgrade", "upgrade"}} {
 				for _, s := range interleavings2(6, 6) {
-					concRun(m, rep, concCase{Backend: []string{"memory", "secrets"}[idx%2], History: h, Kinds: ks, Schedule: s}, seed, idx)
+					concRun(m, rep, concCase{Backend: []string{"memory", "secrets"}[idx%2], History: h, Kinds: ks, Force: []bool{idx%3 == 0, idx%5 == 0}, Schedule: s}, seed, idx)
 					idx++
 				}
 			}
@@ -275,10 +277,12 @@ func concRun(m *Model, rep *Report, c concCase, seed uint64, idx int) {
 				if c.Kinds[i] == "install" {
 					in := action.NewInstall(cfg)
 					in.ReleaseName, in.Namespace, in.DisableOpenAPIValidation = "app", "default", true
+					in.Force = i < len(c.Force) && c.Force[i]
 					_, errs[i] = in.Run(actChart(10*(i+1), false, false), map[string]any{})
 				} else {
 					up := action.NewUpgrade(cfg)
 					up.Namespace, up.DisableOpenAPIValidation = "default", true
+					up.Force = i < len(c.Force) && c.Force[i]
 					_, errs[i] = up.Run("app", actChart(10*(i+1), false, false), map[string]any{})
 				}
 			}); p != "" {
